@@ -192,17 +192,11 @@ def gen_schema(rng):
             if r: req.append("p%d" % j)
         return {"type": "object", "properties": props, "required": req}
     defs = {}
-    # unguarded alias-only cycles (T0 = $ref T1, T1 = $ref T0 reached through allOf) make merge follow
-    # references forever (observed: add_root_schema does not return); they define no type and are not
-    # generated: an alias definition always points to a non-alias definition
-    kinds = {t: rng.choice(["object", "object", "object", "newtype_ref", "newtype_tuple", "newtype_fixed", "newtype_opt", "enum_ext", "enum_untagged"]) for t in names}
-    solid = [t for t in names if kinds[t] != "newtype_ref"]
     for t in names:
-        k = kinds[t]
-        o = rng.choice(names)
-        if k == "newtype_ref" and not solid: k = "object"
+        k = rng.choice(["object", "object", "object", "newtype_ref", "newtype_tuple", "newtype_fixed", "newtype_opt", "enum_ext", "enum_untagged"])
+        o = rng.choice(names)       # alias-only cycles (T0 = $ref T1, T1 = $ref T0) are included on purpose
         if k == "object": defs[t] = obj()
-        elif k == "newtype_ref": defs[t] = ref(rng.choice(solid))
+        elif k == "newtype_ref": defs[t] = {"allOf": [ref(o)], "description": "alias"} if rng.random() < .5 else ref(o)
         elif k == "newtype_tuple": defs[t] = {"type": "array", "items": [ref(o), {"type": "integer"}], "minItems": 2, "maxItems": 2}
         elif k == "newtype_fixed": defs[t] = {"type": "array", "items": ref(o), "minItems": 3, "maxItems": 3}
         elif k == "newtype_opt": defs[t] = {"oneOf": [ref(o), {"type": "null"}]}
@@ -307,20 +301,6 @@ def oracle(orig, res, lo, hi, whole=False):
     return fails
 
 # ------------------------------------------------------------------ running the implementation side
-def hook_safe(req):
-    """The hook's dump asks `has_impl(FromStr)` of every entry, which does not terminate on a cycle made
-    of unconstrained newtypes only (type_entry.rs:634-652, acknowledged there). Cutting removes every such
-    cycle that is reachable from the roots; a graph case that keeps one OUTSIDE the root range would hang
-    the dump, not break_cycles, so such cases are not generated."""
-    nodes = {int(k): v for k, v in req["graph"].items()}
-    keep = set(nodes) - reachable(nodes, range(req["lo"], req["hi"]))
-    for s in keep:
-        seen, u = set(), s
-        while u in keep and nodes[u]["kind"] == "newtype" and u not in seen:
-            seen.add(u); u = nodes[u]["type_id"]
-        if u in seen: return False
-    return True
-
 def run_impl(ctx, lines, tag, budget):
     """vlib.run_side with a time budget; on expiry the first request that does not return is located"""
     path = vlib.os.path.join(vlib.CACHE, "in_c07_%s.txt" % tag)
@@ -372,9 +352,7 @@ def gen_cases(ctx):
             edges = [(a, b, k) for (a, b) in pairs for k in [ctx.rng.choice([None] + REDUCED)] if k]
             graphs.append(from_spec(kinds, edges))
     nrand = 20000 if ctx.tier == "thorough" else 300
-    while nrand > 0:
-        r = gen_random(ctx.rng)
-        if hook_safe(r): graphs.append(r); nrand -= 1
+    graphs += [gen_random(ctx.rng) for _ in range(nrand)]
     nsch = 3000 if ctx.tier == "thorough" else 150
     schemas = [gen_schema(ctx.rng) for _ in range(nsch)]
     return graphs, schemas
